@@ -49,7 +49,8 @@ ReplCases == <<
     [repl |-> <<"s", <<120>>>>, n |-> <<"n", 1>>],
     [repl |-> <<"s", <<120>>>>, n |-> <<"n", 0>>],
     [repl |-> <<"t", GMap>>, n |-> <<"nil">>],
-    [repl |-> <<"f", GMap>>, n |-> <<"nil">>] >>
+    [repl |-> <<"f", GMap>>, n |-> <<"nil">>],
+    [repl |-> <<"n", 5>>, n |-> <<"nil">>] >>                        \* a number is a replacement string
 
 (* ---- admissible outcomes as data ---------------------------------------- *)
 NoErrMsg(r) == IF r[1] = "err" THEN <<"err">> ELSE r
